@@ -29,6 +29,7 @@ CFG_WEAK = "VariantTrace.cfg"
 # ------------------------------------------------------------------ alternative sets and build flavours
 # An alternative SET fixes which of the four alternatives are lifetime-tracked payload types and which move
 # without throwing (constants TrackedAlts / NTMAlts of VariantLifetime.tla; -DC05_SET of the driver).
+UNORD = 7777
 SETS = {
     "mixed": dict(cset=1, tracked=(1, 2, 3), ntm=(0, 1), weak="VariantTrace.cfg", strict="VariantTrace_strict.cfg",
                   mc=("VariantImpl_mc.cfg", "VariantImpl_mc_thorough.cfg"), s2c=("VariantImpl_s2c.cfg", "VariantImpl_s2c_thorough.cfg"),
@@ -181,6 +182,7 @@ class Gen:
 
     def __init__(self, rnd, aset):
         self.r = rnd
+        self.aset = aset
         self.present = [False, False]
         self.tracked = SETS[aset]["tracked"]
         self.ntm = SETS[aset]["ntm"]
@@ -191,8 +193,13 @@ class Gen:
     def valued(self, many=True):
         r = self.r
         alt = r.choice([0, 1, 1, 2, 2, 3])
+        # UNORD (Variant!UNORD): a payload value that is unordered with everything, like a NaN - never for the int alternative
+        is_int = (alt == 3) if self.aset == "td" else (alt == 0)
+        unord = (not is_int) and r.random() < 0.12
         if alt not in self.tracked:
-            return alt, r.randrange(0, 4), "value"
+            return alt, (UNORD if unord else r.randrange(0, 4)), "value"
+        if unord:
+            return alt, UNORD, r.choice(["value", "copy", "move"])
         ak = r.choice(["value", "value", "copy", "move", "ilist", "multi"] if many else ["value", "value", "copy", "move"])
         return alt, r.randrange(0, 4), ak
 
@@ -287,7 +294,10 @@ def random_script(seed, nexec, nops, fl="mixed"):
         g = Gen(rnd, aset)
         lines.append(reset_line(fl))
         for _ in range(nops):
-            lines.append(g.step())
+            st = g.step()
+            if aset == "triv":
+                st["tt"] = 1      # the trivially destructible alternative 3 may throw from its value constructor / assignment (fuse)
+            lines.append(st)
         for k in (1, 2):          # end every execution with both variants destroyed: nothing may stay alive
             lines.append(begin("Destroy", {"k": k}, 0))
     return lines
@@ -922,6 +932,25 @@ def run(ctx):
     ctx.cov["evaluations"] = ctx.cov["events_validated"]
     ctx.log("validated %d events of %d calls in %d traces (%d executions); L2 event sequences compared: %d, mismatches: %d"
             % (ctx.cov["events_validated"], ncalls, len(traces), ctx.cov["traces_validated_against_impl"], ncmp, ndrift))
+    # round 3 material must have been exercised: relational operators on unordered payload values; a throw from the value
+    # constructor / assignment of the trivially destructible alternative 3 of set triv
+    n_unord_rel, n_triv_throw = 0, 0
+    for (n, fl, _), tp in zip(scripts, traces):
+        if not n.startswith("rnd-"):
+            continue
+        unord_held = False
+        with open(tp) as f:
+            for line in f:
+                if FLAVOURS[fl]["set"] == "triv" and line.startswith('{"op":"EThrow"') and '"alt":3,"kind":"value"' in line:
+                    n_triv_throw += 1
+                if line.startswith('{"op":"End"'):
+                    unord_held = '"val":%d' % UNORD in line
+                elif unord_held and line.startswith('{"op":"Begin","c":"Rel"'):
+                    n_unord_rel += 1
+    ctx.notes["relational_calls_with_an_unordered_value_held"] = n_unord_rel
+    ctx.notes["throws_from_the_trivially_destructible_alternative"] = n_triv_throw
+    if not ctx.violations and (n_unord_rel == 0 or n_triv_throw == 0):
+        raise MachineryError("vacuous run: no relational operator on an unordered value (%d) / no throw from the trivial alternative (%d)" % (n_unord_rel, n_triv_throw))
     if not ctx.violations and (seen["throws"] == 0 or seen["valueless_states"] == 0):
         raise MachineryError("vacuous run: no injected throw / no valueless variant was observed")
     pool.shutdown()
